@@ -300,8 +300,15 @@ def W.storeMtp (w : W) : R W :=
   | .ok (s, m) => .ok { w with s := s, mtp := m }
   | .error (e, s, m) => .error (e, { w with s := s, mtp := m })
 
-/-- `TakeFundPayment` -/
+/-- `GetForceCloseFundAddress` / `GetIncrementalInterestPaymentFundAddress`: `AccAddressFromBech32` of the
+    parameter, **panic** if it does not parse.  `MsgUpdateParams` stores the two optional strings as they
+    come, so an omitted one is stored empty; the empty string is the unparsable value the model knows
+    (every other address string of a history is a valid bech32 address). -/
+def fundAddress (a : Addr) : M Addr := if a = "" then .error .other else .ok a
+
+/-- the fund-address getter followed by `TakeFundPayment` (the two are consecutive statements at both call sites) -/
 def takeFundPayment (w : W) (amount : Nat) (asset : Asset) (pct : Dec) (fund : Addr) : R (Nat × W) := do
+  let fund ← liftM w (fundAddress fund)
   let take ← liftM w (takeAmount pct amount)
   let bank ← liftE w (ofBank (if take = 0 then .ok w.s.bank else w.s.bank.modToAcc w.s.clp.clpAddr fund asset take))
   pure (take, { w with s := { w.s with bank := bank } })
